@@ -56,10 +56,32 @@ def scenarios():
     return scns
 
 
+def raw_arg_scenarios():
+    """the consumer passes structures containing variables and reads them back with to_python /
+    get_value at the answers: tails and inner variables bound after the structure was built"""
+    X, Y, Z, W = V(0), V(1), V(2), V(3)
+    script = {
+        "fill/1": [clause(C("fill", lst([V(900)], V(0))), call(C("=", V(0), lst([A("b"), A("c")])))),
+                   clause(C("fill", lst([V(900)], V(0))), conj(call(C("=", V(0), V(1))), call(C("=", V(1), lst([A("d")], V(2)))), call(C("=", V(2), NIL))))],
+        "inner/1": [clause(C("inner", C("f", C("g", V(0)))), call(C("n", V(0))))],
+        "n/1": [clause(C("n", A("k1"))), clause(C("n", A("k2")))],
+        "two/2": [clause(C("two", lst([V(0), V(1)]), C("h", I(1), lst([A("k"), V(1)]))), conj(call(C("n", V(1))), call(C("=", V(0), C("p", V(1))))))],
+    }
+    goals = [(C("fill", lst([A("a")], V(0))), 1), (C("fill", lst([A("a"), V(1)], V(0))), 2), (C("inner", C("f", C("g", V(0)))), 1), (C("inner", C("f", V(0))), 1),
+             (C("two", lst([V(0), V(1)]), C("h", V(2), lst([A("k")], V(3)))), 4), (C("two", V(0), V(1)), 2)]
+    scns = []
+    for g, qnv in goals:
+        steps = [[{"op": "load", "e": 1, "script": "P", "ow": True}], [{"op": "query", "e": 1, "r": 1, "goal": g, "qnv": qnv}],
+                 [{"op": "next", "r": 1}], [{"op": "next", "r": 1}], [{"op": "next", "r": 1}], [{"op": "close", "r": 1, "how": "close"}]]
+        scns.append({"scripts": {"P": script}, "steps": steps, "py": True, "keys": []})
+    return scns
+
+
 def run(tier, seed):
     chk = Check("C15", tier, seed)
     rnd = random.Random(seed)
     chk.machine_family("binding-orders", scenarios(), opts=OPTS, features=features)
+    chk.machine_family("raw-goal-arguments", raw_arg_scenarios(), opts=OPTS, features=features)
     n = 1500 if tier == "quick" else 15000
     rs = []
     for _ in range(n):
